@@ -466,8 +466,19 @@ func (e *pathEnv) compute(v ssa.Value) *Path {
 		}
 		return &Path{Kind: "binop", Name: x.Op.String(), Args: []*Path{e.of(x.X), e.of(x.Y)}}
 	case *ssa.Call:
-		return e.callPath(&x.Call)
+		cp := e.callPath(&x.Call)
+		if x.Call.Signature().Results().Len() == 1 && e.isNewHelper(&x.Call) {
+			if ip := e.inlineNewHelper(&x.Call, cp, 0); ip != nil {
+				return ip
+			}
+		}
+		return cp
 	case *ssa.Extract:
+		if c, ok := x.Tuple.(*ssa.Call); ok && e.isNewHelper(&c.Call) {
+			if ip := e.inlineNewHelper(&c.Call, e.callPath(&c.Call), x.Index); ip != nil {
+				return ip
+			}
+		}
 		return &Path{Kind: "extract", Idx: x.Index, Args: []*Path{e.of(x.Tuple)}}
 	case *ssa.Phi:
 		seen := map[string]*Path{}
@@ -903,4 +914,83 @@ func instrDominates(a, b ssa.Instruction) bool {
 		return instrIndex(a) < instrIndex(b)
 	}
 	return a.Block().Dominates(b.Block())
+}
+
+// knownFuncs: the module functions that existed on the reviewed tree (tables/known_funcs.json). A
+// function that is not among them is new — typically a helper extracted from an existing function.
+var knownFuncs map[string]bool
+
+var inlineDepth int
+
+// inlineNewHelper: the value a call of a *new* helper yields, expressed in the caller's terms — the
+// helper's result expression on its non-failing returns with its parameters replaced by the call's
+// arguments — when that expression is unique. Statements moved into a helper then keep the
+// canonical form they had inline. Functions of the reviewed tree are never inlined.
+func (e *pathEnv) inlineNewHelper(c *ssa.CallCommon, cp *Path, idx int) *Path {
+	if knownFuncs == nil || c.IsInvoke() || inlineDepth > 1 {
+		return nil
+	}
+	g := c.StaticCallee()
+	if g == nil || g.Blocks == nil || g == e.fn || g.Parent() != nil {
+		return nil
+	}
+	name := e.prog.FuncName(g)
+	if name == "" || knownFuncs[name] || g.Recover != nil {
+		return nil
+	}
+	inlineDepth++
+	defer func() { inlineDepth-- }()
+	fi := e.prog.Info(g)
+	genv := e.prog.Env(g)
+	hasRecv := g.Signature.Recv() != nil
+	boolOnly := fi.failKind == "false"
+	alts := map[string]*Path{}
+	for _, b := range g.Blocks {
+		ret, ok := lastInstr(b).(*ssa.Return)
+		if !ok || idx >= len(ret.Results) {
+			continue
+		}
+		if fi.failExit[b] && !boolOnly {
+			continue // the value of a failed call is not used
+		}
+		rp := genv.of(retOperand(ret, idx)).Subst(cp.Args, hasRecv)
+		if rp.Kind == "phi" {
+			for _, a := range rp.Args {
+				alts[a.String()] = a
+			}
+			continue
+		}
+		alts[rp.String()] = rp
+	}
+	if len(alts) == 0 {
+		return nil
+	}
+	if len(alts) == 1 {
+		for _, p := range alts {
+			return p
+		}
+	}
+	// several ways to produce the value: the same merge the code had inline
+	var keys []string
+	for k := range alts {
+		keys = append(keys, k)
+	}
+	sort.Strings(keys)
+	ph := &Path{Kind: "phi"}
+	for _, k := range keys {
+		ph.Args = append(ph.Args, alts[k])
+	}
+	return ph
+}
+
+func (e *pathEnv) isNewHelper(c *ssa.CallCommon) bool {
+	if knownFuncs == nil || c.IsInvoke() {
+		return false
+	}
+	g := c.StaticCallee()
+	if g == nil || g.Blocks == nil || g == e.fn || g.Parent() != nil {
+		return false
+	}
+	name := e.prog.FuncName(g)
+	return name != "" && !knownFuncs[name]
 }
